@@ -63,7 +63,8 @@ def handle (l : Line) : IO Unit := do
     if l.getD "spec" == "1" then
       let sv := parseFloatSpec num
       let si := parseIntSpec iters
-      IO.println s!"spec {id} impl rd={rdLine si sv true}"
+      let kf := if inClassN3 num then " kf=N3" else ""
+      IO.println s!"spec {id} impl rd={rdLine si sv true}{kf}"
       IO.println s!"spec {id} strconv val={specF sv} iters={specI si}"
       IO.println s!"spec {id} direct val={specF sv} ratof={specF sv} iters={specI si}"
   | "exact" =>
